@@ -393,8 +393,12 @@ def strip_woven(w: str) -> str:
 # whole unit
 
 
-def build_unit(spec_path, repo, contracts_dir, shim_table, force_extern=None, variant=0):
+def build_unit(spec_path, repo, contracts_dir, shim_table, force_extern=None, variant=0, extra_consts=()):
     u = parse_spec(spec_path)
+    # constants a function turned out to need (a named constant introduced in the source): extracted verbatim like @const
+    for rel, nm in extra_consts:
+        if ('const', rel, nm) not in u.items:
+            u.items.append(('const', rel, nm))
     srcs = {}
 
     def src(rel):
@@ -529,7 +533,12 @@ def build_unit(spec_path, repo, contracts_dir, shim_table, force_extern=None, va
         fn_info[fs.name] = dict(src=rel, line=s.lineno(a), impl=hdr, text=text, props=fs.props, extern=fs.extern,
                                 shims=fs.shims, degraded=degraded, src_name=fs.src_name, implname=fs.impl,
                                 imported=fs.opts.get('imported'),
-                                local=[q for q in fs.opts.get('local', '').split(',') if q])
+                                local=[q for q in fs.opts.get('local', '').split(',') if q],
+                                # every property named in a label tag of this function's contract (a degraded function
+                                # has no woven invariants, but its tagged obligations are still undecided, not absent)
+                                label_props=sorted(set(q for (_k, _a, _o, t) in fs.sections
+                                                       for tag in re.findall(r'//#[A-Za-z0-9_]+:\s*\+?([A-Z0-9 ,]+)', t or '')
+                                                       for q in re.split(r'[ ,]+', tag) if q)))
 
     # the round-trip check against the files themselves
     for rel, t in roundtrip:
